@@ -41,6 +41,9 @@ type lockOp struct {
 	// Loss (C19): while holding, the holder loses its lock: "revoke" (lease revoked at
 	// the server) or "pause" (the holder's client is cut off for longer than the TTL)
 	Loss string `json:"loss,omitempty"`
+	// DeadlineMs: the caller's context carries a deadline (an RPC deadline) that ends
+	// before the lease would; it limits the wait, not the lease
+	DeadlineMs int `json:"deadline_ms,omitempty"`
 }
 
 type lockH struct{}
@@ -63,8 +66,11 @@ func (lockH) Generate(property string, seed uint64, tier string) *Case {
 			if g.IntN(3) != 0 {
 				op.Loss = "revoke"
 			}
-			if g.IntN(2) == 0 {
+			switch g.IntN(4) {
+			case 0, 1:
 				op.Kind, op.Who = "capacity", g.IntN(3) // a section under three locks; Who: which one is lost
+			case 2:
+				op.Kind = "remove" // the lock is lost during the first step of a two-step operation
 			}
 			ops = append(ops, mustJSON(op))
 		}
@@ -79,6 +85,9 @@ func (lockH) Generate(property string, seed uint64, tier string) *Case {
 			// a hold longer than the TTL, kept alive by keep-alives (the Redis lock has no
 			// keep-alive: its holders stay within the lease only while they hold < TTL)
 			op.HoldMs = cfg.TTLSec*1000 + g.IntN(4000)
+		}
+		if property == "C18" && g.IntN(6) == 0 {
+			op.DeadlineMs = 1000 + g.IntN(cfg.TTLSec*500)
 		}
 		if property == "C19" && g.IntN(3) == 0 {
 			op.Loss = []string{"revoke", "pause"}[g.IntN(2)]
@@ -258,11 +267,21 @@ func (lockH) Execute(c *Case, res *Result) {
 				}
 				t0 := time.Now()
 				var lctx context.Context
+				actx, waitLimit := ctx, ttl
+				if op.DeadlineMs > 0 {
+					var cancel context.CancelFunc
+					actx, cancel = context.WithTimeout(ctx, time.Duration(op.DeadlineMs)*time.Millisecond)
+					defer cancel() // (at the end of the contender: the lock context may derive from it)
+					if d := time.Duration(op.DeadlineMs) * time.Millisecond; d < waitLimit {
+						waitLimit = d
+					}
+					res.Probes["acquire_under_caller_deadline"]++
+				}
 				if op.Kind == "trylock" {
 					mu.Lock()
 					heldByOther := len(inside) > 0
 					mu.Unlock()
-					lctx, err = l.TryLock(ctx)
+					lctx, err = l.TryLock(actx)
 					if err != nil {
 						res.Probes["trylock_refused"]++
 						if d := time.Since(t0); d > 0 {
@@ -275,7 +294,7 @@ func (lockH) Execute(c *Case, res *Result) {
 						viol("C18", "trylock-waited", cfg.Backend, fmt.Sprintf("op#%d: try-lock by contender %d on a held lock waited %v of virtual time and then acquired it", i, who, d))
 					}
 				} else {
-					lctx, err = l.Lock(ctx)
+					lctx, err = l.Lock(actx)
 					if err != nil {
 						res.Probes["lock_failed"]++
 						waited := time.Since(t0)
@@ -284,8 +303,8 @@ func (lockH) Execute(c *Case, res *Result) {
 						if be.keepsAlive() {
 							slack = 100 * time.Millisecond
 						}
-						if waited+slack < ttl && !strings.Contains(err.Error(), "injected") {
-							viol("C18", "lock-gave-up-early", cfg.Backend, fmt.Sprintf("op#%d: lock by contender %d failed after only %v (wait timeout %v): %v", i, who, waited, ttl, err))
+						if waited+slack < waitLimit && !strings.Contains(err.Error(), "injected") {
+							viol("C18", "lock-gave-up-early", cfg.Backend, fmt.Sprintf("op#%d: lock by contender %d failed after only %v (wait timeout %v): %v", i, who, waited, waitLimit, err))
 						}
 						_ = l.Unlock(ctx)
 						continue
